@@ -7,20 +7,33 @@ from tools.props import c03
 ID = 'C01'
 TARGETS = ['MindsVerif.Props.C01']
 THEOREMS = ['MindsVerif.Props.C01.' + n for n in (
+    'C01_full_of_roundtrip_and_copy', 'C01_copy_print_stable',
     'C01_partial_select', 'C01_partial_select_good', 'C01_select_good', 'C01_partial_select_stable',
     'C01_partial_union', 'C01_partial_union_wf', 'C01_union_wf', 'C01_regress_union',
     'C01_partial_expr_sqlite', 'C01_partial_expr_mysql', 'C01_partial_expr_mindsdb',
-    'C01_regress_parameter', 'C01_regress_variable', 'C01_partial_compose', 'C01_partial_select_expr',
+    'C01_partial_literal_sequence', 'C01_regress_parameter', 'C01_regress_variable',
+    'C01_partial_compose', 'C01_partial_select_expr',
     'C01_partial_select_expr_sqlite', 'C01_partial_select_expr_mysql', 'C01_partial_select_expr_mindsdb',
-    'C01_partial_tokens', 'C01_partial_tokens_compose', 'C01_partial_literal_sequence')]
+    'C01_partial_tokens', 'C01_partial_tokens_compose', 'C01_review_tokens_select_expr', 'C01_review_opm_print_ne')]
 ASSUME = [
-    'C01_full is proved per layer only: L2 expressions (operator-precedence machine, tied to the LALR tables by C03.phi3b) and '
-    'L3 SELECT skeleton / set-operation chains (hand model Model/SelectSkel.lean of the clause rules, ensure_select_keyword_order and '
-    'Select.get_string; tie = skeleton correspondence stream through parse_sql / to_string in the three dialects)',
-    'glue not proved: (G1) the LALR parser delimits clause payloads as the skeleton assumes, (G2) payloads round-trip beyond the '
-    'L1/L2 fragments (functions, CASE, CAST, sub-selects, joins), (G3) all statement kinds other than SELECT / set operations; '
-    'these are covered by the round-trip oracle on the real code only (corpus, grammar-derived sentences of every production, '
-    'mutants, expression / identifier / literal / skeleton streams)',
+    'C01_full (over the real parse_sql / to_string / copy) is neither proved nor refuted as a whole; it is proved per layer, each for all '
+    'inputs of the layer: string constants in sequence (C01_partial_literal_sequence over the C04 codec model; tie = literal-sequence '
+    'stream), operator expressions (C01_partial_expr_<d> = C03 round trip, tied to the LALR tables by C03.phi3b; tie = expr-print '
+    'stream), SELECT clause skeleton (C01_partial_select, hand model Model/SelectSkel.lean of the clause rules, '
+    'ensure_select_keyword_order and the clause order of Select.get_string; tie = select-skeleton stream through parse_sql / '
+    'to_string in the three dialects), set operations with stored parentheses (C01_partial_union; tie = set-operation-chains), and '
+    'their compositions (C01_partial_compose, C01_partial_select_expr_<d>, C01_partial_tokens(_compose), C01_review_tokens_select_expr)',
+    'the copy() half of the quantifier: C01_full_of_roundtrip_and_copy reduces it to "a copy prints like the original", which is '
+    'C01_copy_print_stable on the heap model of copy.deepcopy of the C18 package (tied there by the copy streams); on the real code the '
+    'oracle compares to_string / to_tree of tree.copy() for every accepted input',
+    'the token level (printTks / splitTks / parseSelTks / parseSelT) is Lean-only glue without a driver: tokens are tagged, so '
+    'keyword-colliding identifiers, commas inside payloads and keywords inside sub-selects are not expressible there',
+    'glue not proved: (G1) the lexer + LALR parser delimit clause payloads as the skeleton / token level assume, (G2) payloads beyond '
+    'literals and operator expressions round-trip (functions, CASE, CAST, sub-selects, joins), (G3) all statement kinds other than '
+    'SELECT / set operations; these are covered by the round-trip oracle on the real code only (corpus, grammar-derived sentences of '
+    'every production, mutants, expression / identifier / literal / optional-sub-part / atom-sequence / raw-text / skeleton streams)',
+    'Lex.parameterToString / Lex.variableToString (models of Parameter.get_string / Variable.get_string) are compared with the real '
+    'printers by the atom-printers stream',
     'trees are compared by to_tree() and str() (the library\'s own equality), printing by to_string()',
 ]
 
@@ -471,6 +484,10 @@ def src_name(v):
     return '`' + v.replace('`', '``') + '`'
 
 
+def lexh_random(rng):
+    return ''.join(rng.choice(['a', 'B', '_', '.', '$', ' ', '`', '"', "'", 'é', '1', '-']) for _ in range(rng.randint(1, 5)))
+
+
 def sequence_stream(chk, cl, dist, quick):
     """edge atoms followed by edge atoms: oracle in every two-atom position + correspondence of the literal sequence
     model (Driver/LitSeq: printSeq / readSeq) with Constant.to_string and the real lexers"""
@@ -555,6 +572,30 @@ def sequence_stream(chk, cl, dist, quick):
                 first = first or dict(dialect=d, text=real_printed, model_values=m_vals, impl_values=real_vals)
                 break
     chk.corr_result('literal-sequence', n, diverged, first)
+    # (f) the two other atom printers: Parameter.get_string and Variable.get_string (+ the variable lexers)
+    from mindsdb_sql.parser.ast import Parameter, Variable
+    pvals = ['?', 'a', 'name', 'p1', ':x', '??', '']
+    vvals = ['a', 'a.b', 'a b', 'a`b', 'x y', '$v', 'a"b', "a'b", 'A_1', 'é', '1a', 'a-b', '@a'] + \
+            [lexh_random(rng) for _ in range(60 if quick else 1000)]
+    lines = ['P %s' % enc(v) for v in pvals] + ['V %d %s' % (sy, enc(v)) for v in vvals if v for sy in (0, 1)]
+    metas = [('P', v, None) for v in pvals] + [('V', v, sy) for v in vvals if v for sy in (0, 1)]
+    try:
+        outs = common.lean_run('LitSeq', lines)
+    except Exception as e:
+        chk.oblige('corr:atom-printers', 'correspondence', False, 'driver failed: %s' % e)
+        return
+    diverged, first = 0, None
+    for (kind, v, sy), o in zip(metas, outs):
+        if kind == 'P':
+            impl = Parameter(v).to_string()
+            model = dec(o.strip())
+        else:
+            impl = Variable(v, is_system_var=bool(sy)).to_string()
+            model = dec(o.split(' | ')[0].strip())
+        if impl != model:
+            diverged += 1
+            first = first or dict(kind=kind, value=v, system=sy, model=model, impl=impl)
+    chk.corr_result('atom-printers', len(lines), diverged, first)
 
 
 # ------------------------------------------------------------------------------------------ embedded raw text
@@ -865,10 +906,14 @@ def run(chk):
                     k['_reproduced'] = True
         except Exception:
             pass
-    chk.samples.append(dict(theorem='C01_partial_select: C01_full (parseSkel c) printSkel id  — for every clause sequence the '
-                                    'rules accept, the clauses Select.get_string emits pass ensure_select_keyword_order and rebuild the record'))
+    chk.samples.append(dict(theorem='C01_partial_select : C01_full (parseSkel c) printSkel id — for every clause sequence the rules accept, '
+                                    'the clauses Select.get_string emits pass ensure_select_keyword_order and rebuild the record'))
     chk.samples.append(dict(theorem='C01_partial_union : C01_full parseQ printQ id — every token list the set-operation rules accept '
                                     '(parenthesised operands on either side, any nesting) round-trips, parentheses flags included'))
+    chk.samples.append(dict(theorem='C01_partial_literal_sequence : sepsOK items → readSeq (items.map (·.2)) (printSeq items) = some (items.map (·.1)) '
+                                    '— a string constant ends where the printer ended it, whatever follows'))
+    chk.samples.append(dict(theorem='C01_full_of_roundtrip_and_copy : (∀ txt t, parse txt = some t → parse (print t) = some t) → '
+                                    '(∀ txt t, parse txt = some t → print (copy t) = print t) → C01_full parse print copy'))
     for cls, cnt in sorted(cl.by_class.items(), key=lambda x: -x[1])[:6]:
         chk.samples.append(dict(failure_class=cls, count=cnt))
     if os.environ.get('C01_DUMP'):
